@@ -213,7 +213,7 @@ impl W {
     }
 
     pub fn mk_sub(&self, s: u8, id: u32, gate: u8, gate_all: bool, read_wh: u32) -> ScriptedSub {
-        ScriptedSub { ctx: self.ctx.clone(), store: s, id, gate, gate_all, read_wh, counter: None }
+        ScriptedSub { ctx: self.ctx.clone(), store: s, id, gate, gate_all, read_wh, counter: None, unsub_counter: None }
     }
 
     /// add_subscriber with a fresh scripted direct subscriber
@@ -286,9 +286,9 @@ impl W {
         let id = self.new_sub_info(s, SK_ITER, 1, 0, at_build, false);
         let _o = Out::new(self.log());
         let st = &self.stores[s as usize];
-        self.ctx.ev(K::AddInv, s, 0, id, 0, 0, REG_SUB);
+        self.ctx.ev(K::AddInv, s, 0, id, SK_ITER as u64, 0, REG_SUB);
         let it = iter_boxed(st);
-        self.ctx.ev(K::AddRet, s, 0, id, 0, 0, REG_SUB);
+        self.ctx.ev(K::AddRet, s, 0, id, SK_ITER as u64, 0, REG_SUB);
         (id, it)
     }
 
